@@ -79,6 +79,11 @@ def check(pid, tier):
             e2e = dns_rig.c08_e2e(run, pid, cases)
         except (ImportError, AttributeError):
             run.notes.append("DNS and HTTP bindings (real listeners) not built yet")
+        import http_rig
+        http = http_rig.c08_http(run, pid)
+        e2e = dict(e2e, http=http)
+        e2e["events"] = e2e.get("events", 0) + http["events"]
+        e2e["nontrivial"] = e2e.get("nontrivial", 0) + http["nontrivial"]
         cov = {
             "states": run.mc["states"], "transitions": run.mc["transitions"],
             "traces_validated_against_impl": nlines + e2e.get("events", 0), "evaluations": nlines + e2e.get("events", 0),
@@ -89,6 +94,7 @@ def check(pid, tier):
         rc = finish(run, "model_checking", cov, [
             "Acl.tla is an independent transcription of erbium.conf(5) ACL semantics and of the property statement (mapped addresses, host bits)",
             "function-level binding uses acl::require_permission on rule lists loaded through the real YAML loader",
+            "HTTP binding: real http::run in a private namespace; listeners TCP 127.0.0.1, [::1], dual-stack [::] (IPv4 clients appear as mapped addresses), unix path and abstract sockets; clients on 6 IPv4 and 3 IPv6 source addresses and unnamed / path-bound / abstract-bound unix sockets; the status of GET /, /metrics, /api/v1/leases.json is the decision (403 = refused), judged by the same AclTrace",
         ])
     except ToolError as e:
         log("TOOL-ERROR: %s" % e)
